@@ -644,7 +644,7 @@ def run(ctx):
     # ---- 2. build
     exes, errs = build_all(ctx)
     found = {}
-    scale = (2.0 if quick else 40.0) * (1.0 if pr['ok'] and not errs else 1.5)      # a broken proof / tie widens the search
+    scale = (2.0 if quick else 20.0) * (1.0 if pr['ok'] and not errs else 1.5)      # a broken proof / tie widens the search
     # ---- 3. the detectors detect
     if ('fuzz', 'asan') in exes:
         selftest(ctx, exes[('fuzz', 'asan')], exes.get(('nf', 'asan')))
